@@ -4,7 +4,7 @@ cd "$(dirname "$0")"
 export PYTHONHASHSEED=0
 mkdir -p .work evidence replays coq/Gen
 /venv/bin/python tools/regen_all.py || exit 1
-cd coq && coq_makefile -f _CoqProject -o Makefile > /dev/null && timeout 3000 make -j16 > ../.work/setup_make.log 2>&1
+cd coq && coq_makefile -f _CoqProject -o Makefile > /dev/null && timeout 3000 make -k -j16 > ../.work/setup_make.log 2>&1
 rc=$?
 tail -3 ../.work/setup_make.log
 # a failing proof is reported by the individual check, not by setup
